@@ -631,7 +631,7 @@ func main() {
 	px.RSAKeys()
 
 	// --- RSA public keys
-	named := []int{512, 1023, 1024, 2047, 2048, 2049, 3072, 4096}
+	named := []int{512, 1023, 1024, 2047, 2048, 2049, 3072, 4096, 8192, 16383, 16384, 16385, 20000}
 	// plus every bit length of a range, so that each DER length form (short, 0x81, 0x82) of
 	// the INTEGER, the RSAPublicKey SEQUENCE, the BIT STRING and the outer SEQUENCE is crossed
 	lo, hi := 16, mc.Pick(r, 2100, 4104)
@@ -689,6 +689,20 @@ func main() {
 				idCases = append(idCases, idCase{T: t, Key: k, Entry: 1, Batch: b}, idCase{T: t, Key: k, Entry: 2, Batch: b})
 			}
 		}
+	}
+	// keys found by search whose serialised public key has a zero byte where a big-integer based
+	// encoder would drop it (leading byte of the P-384 x coordinate; first / last byte of the
+	// ristretto255 encoding), and keys whose id ends in 00 / ff
+	for _, sp := range []struct {
+		t   int
+		key int
+	}{{1, px.FindOPRFKeyPubZero(oprf.SuiteP384, 1)}, {1, px.FindOPRFKeyPubZero(oprf.SuiteP384, -1)}, {5, px.FindOPRFKeyPubZero(oprf.SuiteRistretto255, 0)}, {5, px.FindOPRFKeyPubZero(oprf.SuiteRistretto255, -1)},
+		{1, px.FindOPRFKey(oprf.SuiteP384, 0x00)}, {1, px.FindOPRFKey(oprf.SuiteP384, 0xff)}, {5, px.FindOPRFKey(oprf.SuiteRistretto255, 0x00)}, {5, px.FindOPRFKey(oprf.SuiteRistretto255, 0xff)}} {
+		b := 0
+		if sp.t == 5 {
+			b = 2
+		}
+		idCases = append(idCases, idCase{T: sp.t, Key: sp.key, Entry: 0}, idCase{T: sp.t, Key: sp.key, Entry: 1, Batch: b}, idCase{T: sp.t, Key: sp.key, Entry: 2, Batch: b})
 	}
 	for k := range px.RSAKeys() {
 		idCases = append(idCases, idCase{T: 2, Key: k, Entry: 0}, idCase{T: 2, Key: k, Entry: 1}, idCase{T: 2, Key: k, Entry: 2}, idCase{T: 3, Key: k, Entry: 0})
